@@ -117,3 +117,28 @@ package coroutines
 //@ ensures (res != nil) != (err != nil)
 //@ ensures err == nil ==> res.Kind == t_api.CreateSchedule && res.CreateSchedule != nil && res.CreateSchedule.Schedule != nil
 //@ ensures err == nil ==> linearizes((pre_schedules(sreq().Id).present ==> post_schedules(sreq().Id) == pre_schedules(sreq().Id) && res.CreateSchedule.Status == seq.createschedule.status.exists(pre_schedules(sreq().Id), opt(sreq().IdempotencyKey))) && (!pre_schedules(sreq().Id).present ==> res.CreateSchedule.Status == t_api.StatusCreated && post_schedules(sreq().Id).present && sview.row(post_schedules(sreq().Id)) == mk.sview(sreq().Id, sreq().Description, sreq().Cron, sreq().Tags, sreq().PromiseId, sreq().PromiseTimeout, sreq().PromiseParam.Headers, sreq().PromiseParam.Data, sreq().PromiseTags, inone, cronnext(sreq().Cron, T), opt(sreq().IdempotencyKey), T)) && sview(res.CreateSchedule.Schedule) == sview.row(post_schedules(sreq().Id)))
+
+//@ macro cb_post(status, shown, cb, cbid, pid, root, recv, mtype, mroot, mleaf, timeout) linearizes((!pre_promises(pid).present ==> status == t_api.StatusPromiseNotFound && post_callbacks(cbid) == pre_callbacks(cbid)) && (pre_promises(pid).present ==> (status == t_api.StatusOK || status == t_api.StatusCreated) && shown != nil && pview(shown) == pview.row(pre_promises(pid)) && (status == t_api.StatusCreated ==> !pre_callbacks(cbid).present && p.pending(pre_promises(pid)) && cview.row(post_callbacks(cbid)) == mk.cview(cbid, pid, root, recv, mtype, mroot, mleaf, timeout, T)) && (status == t_api.StatusOK ==> post_callbacks(cbid) == pre_callbacks(cbid)) && (p.pending(pre_promises(pid)) ==> post_callbacks(cbid).present)))
+
+//@ func CreateCallback
+//@ props C02 C05 C20
+//@ ghostdb coroutine
+//@ requires c != nil && r != nil && r.CreateCallback != nil && r.CreateCallback.Recv != nil
+//@ ensures (res != nil) != (err != nil)
+//@ ensures err == nil ==> res.Kind == t_api.CreateCallback && res.CreateCallback != nil
+//@ ensures err == nil && r.CreateCallback.PromiseId == r.CreateCallback.RootPromiseId ==> res.CreateCallback.Status == t_api.StatusCallbackInvalidPromise
+//@ macro cbc_post() cb_post(res.CreateCallback.Status, res.CreateCallback.Promise, res.CreateCallback.Callback, sprintf("__resume:%s:%s", r.CreateCallback.RootPromiseId, r.CreateCallback.PromiseId), r.CreateCallback.PromiseId, r.CreateCallback.RootPromiseId, r.CreateCallback.Recv, "resume", r.CreateCallback.RootPromiseId, r.CreateCallback.PromiseId, r.CreateCallback.Timeout)
+//@ ensures err == nil && r.CreateCallback.PromiseId != r.CreateCallback.RootPromiseId && res.CreateCallback.Status != t_api.StatusOK ==> cbc_post()
+//@ ensures err == nil && r.CreateCallback.PromiseId != r.CreateCallback.RootPromiseId && res.CreateCallback.Status == t_api.StatusOK && res.CreateCallback.Promise.State != promise.Pending ==> cbc_post()
+//@ ensures err == nil && r.CreateCallback.PromiseId != r.CreateCallback.RootPromiseId && res.CreateCallback.Status == t_api.StatusOK && res.CreateCallback.Promise.State == promise.Pending ==> cbc_post()
+
+//@ func CreateSubscription
+//@ props C02 C05 C20
+//@ ghostdb coroutine
+//@ requires c != nil && r != nil && r.Kind == t_api.CreateSubscription && r.CreateSubscription != nil && r.CreateSubscription.Recv != nil
+//@ ensures (res != nil) != (err != nil)
+//@ ensures err == nil ==> res.Kind == t_api.CreateSubscription && res.CreateSubscription != nil
+//@ macro cbs_post() cb_post(res.CreateSubscription.Status, res.CreateSubscription.Promise, res.CreateSubscription.Callback, sprintf("__notify:%s:%s", r.CreateSubscription.PromiseId, r.CreateSubscription.Id), r.CreateSubscription.PromiseId, r.CreateSubscription.PromiseId, r.CreateSubscription.Recv, "notify", r.CreateSubscription.PromiseId, "", r.CreateSubscription.Timeout)
+//@ ensures err == nil && res.CreateSubscription.Status != t_api.StatusOK ==> cbs_post()
+//@ ensures err == nil && res.CreateSubscription.Status == t_api.StatusOK && res.CreateSubscription.Promise.State != promise.Pending ==> cbs_post()
+//@ ensures err == nil && res.CreateSubscription.Status == t_api.StatusOK && res.CreateSubscription.Promise.State == promise.Pending ==> cbs_post()
